@@ -55,8 +55,9 @@ class Contract:
     def modifies(self, v, out):
         return []
 
-    def effects(self, v, interp, out):
-        """Ghost/trace effects of a call (assumed contracts of external functions)."""
+    def effects(self, v):
+        """Ghost effects of a call, applied when the contract stands in for the callee
+        (v.g is the live ghost state, v.result / v.raised the drawn outcome, v.draw fresh values)."""
 
     def ensures(self, v):
         return []
